@@ -415,6 +415,89 @@ def r20_11(chk, P):
                     'the seek refuses it'))
     return n
 
+def r20_12(chk, P, rule='R20.12'):
+    chk.rule(rule, 'a half-rate request reaches every link: ov_halfrate stores the flag in the vf->links infos the handle has at that '
+             'moment.  Where it can answer 0 on a partially open handle (ready_state == PARTOPEN: K4 with that constant; the link '
+             'table then holds the first link only), the function that completes the table -- the one file-local function that '
+             'moves the handle from PARTOPEN to OPENED -- re-applies the request: each of its returns that may be 0 and lies behind a '
+             'call from which a store to vf->links is reachable has passed a call of vorbis_synthesis_halfrate (K2).  Otherwise '
+             'ov_test_callbacks, ov_halfrate(vf,1), ov_test_open on a chained file leaves every link but the first at full rate '
+             'while positions advance by two')
+    import absint
+    import k2
+    from absint import V, K
+    H = P.need('ov_halfrate')
+    A = absint.Analyzer(P, H)
+    base = A.initial_env
+    pid = H.params[0]['id']
+
+    def init():
+        env = base()
+        env[f'v{pid}'] = V(nn=True)
+        env[f'v{pid}->ready_state'] = K(1)
+        env[f'v{pid}->vi'] = V(nn=True)
+        return env
+    A.initial_env = init
+    A.run()
+    chk.require(A.ret_states, 'ov_halfrate: no return reached on a partially open handle')
+    accepts = [(e, v) for (e, env, v) in A.ret_states if v is None or (v.lo <= 0 <= v.hi and 0 not in (v.ne or ()))]
+    if not accepts:
+        chk.ob(rule, H.name, 'request-reaches-every-link', True, H.where(), 'ov_halfrate refuses a partially open handle')
+        return 1
+    # the function that completes the link table
+    comp = []
+    for F in P.functions():
+        if not F.file.endswith('vorbisfile.c') or F.entry is None or F.name in P.public_api():
+            continue
+        st = [n for n in F.nodes('assign') if F.ex[n]['op'] == '=' and F.ex[F.strip_casts(F.ex[n]['c'][0])].get('field') == 'ready_state'
+              and F.ex[F.strip_casts(F.ex[n]['c'][0])].get('record') == 'OggVorbis_File' and common.const_val(F, F.ex[n]['c'][1]) == 2]
+        rd = any(F.ex[q]['k'] == 'member' and F.ex[q].get('field') == 'ready_state' for c, pol in
+                 [cp for n in st for cp in common.controlling_conditions(F, n)] for q in F.walk(c)) or st
+        if st and rd:
+            comp.append(F)
+    chk.require(len(comp) >= 1, 'no file-local function moves the handle from PARTOPEN to OPENED')
+    lw = {}
+
+    def writes_links(A_, env, e):
+        nd = A_.ex[e]
+        if nd['k'] != 'call':
+            return False
+        for t in P.call_targets(A_.F, e):
+            if t not in lw:
+                lw[t] = False
+                for k_ in [t] + sorted(P.reachable([t])) if t in P.fn else []:
+                    G = P.fn.get(k_)
+                    if G is None:
+                        continue
+                    for n in G.nodes('assign'):
+                        l = G.ex[G.strip_casts(G.ex[n]['c'][0])]
+                        if l['k'] == 'member' and l.get('record') == 'OggVorbis_File' and l['field'] == 'links' and \
+                                common.const_val(G, G.ex[n]['c'][1]) is None:
+                            lw[t] = True
+            if lw[t]:
+                return True
+        return False
+    n = 0
+    for F in comp:
+        isap = k2.is_call('vorbis_synthesis_halfrate')
+        A2, h = k2.analyse(P, F, [('grown', writes_links, True)], watch=lambda A_, e_: isap(A_, None, e_))
+        rets = [(e, fl, v) for (e, fl, v, env) in k2.ret_value_classes(A2) if 'grown' in fl and (v is None or (v.lo <= 0 <= v.hi and 0 not in (v.ne or ())))]
+        if not rets:
+            continue
+        # some call of vorbis_synthesis_halfrate is reached after the table has grown (how many links it then covers is a
+        # loop over run-time counts and not decided here)
+        after = [c for c, fls in h.at.items() if any('grown' in fl for fl in fls)]
+        ok = bool(after)
+        chk.ob(rule, F.name, 'request-reaches-every-link', ok, F.where(after[0]) if ok else F.where(rets[0][0]),
+               f'ov_halfrate accepts a partially open handle; {F.name} applies the request again after the link table has grown' if ok else
+               f'ov_halfrate answers 0 on a partially open handle (one link in the table) and {F.name} reports success after the link '
+               'table has grown without any call of vorbis_synthesis_halfrate behind that point: the links found by the open stay '
+               'at full rate')
+        n += 1
+    chk.require(n >= 1, 'the function that completes the link table was not identified')
+    return n
+
+
 def run(chk, P):
     E = getattr(P, '_effects', None) or k3.Effects(P)
     P._effects = E
@@ -424,6 +507,8 @@ def run(chk, P):
     chk.floor('R20.3', 3)
     r20_5(chk, P, E)
     chk.floor('R20.5', 3)
+    r20_12(chk, P)
+    chk.floor('R20.12', 1)
     import frames
     frames.c20(chk, P)
     import typestate
